@@ -4,6 +4,7 @@
 
 use serde::{Deserialize, Serialize};
 use std::io::{self, Write as IoWrite};
+use std::os::unix::fs::OpenOptionsExt;
 use std::path::PathBuf;
 
 use simple_sds::bit_vector::BitVector;
@@ -45,6 +46,10 @@ pub struct RoundTrip {
     pub split: bool,
     /// Additionally push the first payload through `serialize_to` / `load_from` on the simulated file system.
     pub via_fs: Option<FsPlan>,
+    /// Additionally load the first payload with `load_from` from a named pipe on the real file system
+    /// (a path whose metadata reports length 0 while the data arrives as a stream).
+    #[serde(default)]
+    pub via_fifo: bool,
 }
 
 impl RoundTrip {
@@ -56,17 +61,17 @@ impl RoundTrip {
         let w = if rng.chance(1, 6) { WritePlan::plain() } else { WritePlan::generate(rng, 64) };
         let r = if rng.chance(1, 6) { ReadPlan::plain() } else { ReadPlan::generate(rng, 64) };
         let via_fs = if rng.chance(1, 5) { Some(FsPlan::generate(rng, 32)) } else { None };
-        RoundTrip { payloads, w, r, split: rng.chance(1, 4), via_fs }
+        RoundTrip { payloads, w, r, split: rng.chance(1, 4), via_fs, via_fifo: rng.chance(1, 300) }
     }
 
     /// One large structure (around 2^16 / 2^17 / 2^19 items) with coarse chunking, optionally followed by a small one.
     pub fn generate_large(rng: &mut Rng, big: bool) -> RoundTrip {
-        let base = if big { *rng.pick(&[1usize << 16, 1 << 16, 1 << 17, 1 << 19]) } else { *rng.pick(&[1usize << 16, 1 << 16, 1 << 16, 1 << 17]) };
+        let base = if big { *rng.pick(&[1usize << 16, 1 << 16, 1 << 17, 1 << 19, 1 << 20, 1 << 21]) } else { *rng.pick(&[1usize << 16, 1 << 16, 1 << 16, 1 << 17, 1 << 20]) };
         let words = match rng.below(6) { 0 => base - 1, 1 => base, 2 | 3 => base + 1, 4 => base + rng.range_usize(2, 5000), _ => 2 * base + 1 };
         let mut payloads = vec![gen_large_payload(rng, words)];
         if rng.bool() { payloads.push(Payload::plain(Leaf::U64(0x5E17_1E1A_0000_0001))); }
         let coarse = |rng: &mut Rng| match rng.below(5) { 0 => Chunk::Unbounded, 1 => Chunk::Max(1 << 16), 2 => Chunk::Max(4096), 3 => Chunk::Align(1 << 16), _ => Chunk::Seq(vec![100_000, 4096, 1 << 20, 65_537, 13]) };
-        RoundTrip { payloads, w: WritePlan { chunk: coarse(rng), eintr: vec![], fault: None }, r: ReadPlan { chunk: coarse(rng), eintr: if rng.bool() { vec![3, 17] } else { vec![] }, fault: None }, split: false, via_fs: None }
+        RoundTrip { payloads, w: WritePlan { chunk: coarse(rng), eintr: vec![], fault: None }, r: ReadPlan { chunk: coarse(rng), eintr: if rng.bool() { vec![3, 17] } else { vec![] }, fault: None }, split: false, via_fs: None, via_fifo: false }
     }
 
     pub fn run(&self, prop: &str) -> Outcome {
@@ -195,6 +200,30 @@ impl RoundTrip {
         out.stats.probe_if(r.stats.eintr > 0, "EINTR during load");
         out.stats.probe_if(w.stats.eintr > 0, "EINTR during serialize");
 
+        // Pipe route: load_from on a FIFO.
+        if self.via_fifo && expected[0].len() <= (1 << 20) {
+            use std::io::Write as _;
+            let path = crate::scratch::file("fifo");
+            let cpath = std::ffi::CString::new(path.to_string_lossy().as_bytes()).unwrap();
+            if unsafe { libc::mkfifo(cpath.as_ptr(), 0o600) } == 0 {
+                let bytes = expected[0].clone();
+                let wpath = path.clone();
+                let writer = std::thread::spawn(move || { if let Ok(mut f) = std::fs::OpenOptions::new().write(true).open(&wpath) { let _ = f.write_all(&bytes); } });
+                let val = &vals[0];
+                let res = catch(|| val.load_from(&path));
+                // Release the writer if the loader never opened the pipe or stopped reading early.
+                if let Ok(f) = std::fs::OpenOptions::new().read(true).custom_flags(libc::O_NONBLOCK).open(&path) { drop(f); }
+                let _ = writer.join();
+                let _ = std::fs::remove_file(&path);
+                match res {
+                    Ok(Ok(l)) => if !val.eq_dyn(l.as_ref()) { return out.fail(v("load-not-equal", "load_from", format!("{}: value loaded from a named pipe differs", val.type_name()))); },
+                    Ok(Err(e)) => return out.fail(v("load-error", "load_from", format!("{} ({} bytes) arriving through a named pipe: load_from failed: {}", val.type_name(), expected[0].len(), e))),
+                    Err(p) => return out.fail(v("panic", "load_from", p)),
+                }
+                out.stats.probe("load_from on a named pipe");
+            }
+        }
+
         // File route: serialize_to / load_from on the simulated file system.
         if let Some(plan) = &self.via_fs {
             let fs = FsSession::start(plan.clone(), 2 * expected[0].len());
@@ -239,6 +268,7 @@ impl RoundTrip {
             }
         }
         if self.via_fs.is_some() { let mut s = self.clone(); s.via_fs = None; out.push(s); }
+        if self.via_fifo { let mut s = self.clone(); s.via_fifo = false; out.push(s); }
         if self.split { let mut s = self.clone(); s.split = false; out.push(s); }
         if !self.w.chunk.is_unbounded() { let mut s = self.clone(); s.w.chunk = Chunk::Unbounded; out.push(s); }
         if !self.r.chunk.is_unbounded() { let mut s = self.clone(); s.r.chunk = Chunk::Unbounded; out.push(s); }
@@ -405,14 +435,17 @@ impl StreamFault {
     }
 
     /// One large structure (around 2^16 / 2^17 elements) with sampled fault points and coarse chunking.
-    pub fn generate_large(rng: &mut Rng) -> StreamFault {
-        let huge = rng.chance(1, 4);
+    pub fn generate_large(rng: &mut Rng, huge: bool) -> StreamFault {
         let base = if huge { (1usize << 21) + (1 << 16) } else { *rng.pick(&[1usize << 16, 1 << 16, 1 << 17]) };
         let words = match rng.below(4) { 0 => base - 1, 1 => base, 2 => base + 1, _ => base + rng.range_usize(2, 3000) };
         let payload = if huge {
-            // More than 16 MiB of bytes: the size class where "do not trust the length header" code paths begin.
-            let c = Content { len: 8 * words + rng.range_usize(0, 7), pat: crate::content::Pat::Counter, salt: rng.next() & 0xFFFF };
-            Payload { leaf: if rng.bool() { Leaf::Bytes(c) } else { Leaf::Str(c) }, opt: rng.below(2) as u8, none_at: None }
+            // Tens of megabytes: the size class where "do not trust the length header" / "write in blocks" code paths begin.
+            match rng.below(4) {
+                0 => { let c = Content { len: 8 * words + rng.range_usize(0, 7), pat: crate::content::Pat::Counter, salt: rng.next() & 0xFFFF }; Payload { leaf: Leaf::Bytes(c), opt: rng.below(2) as u8, none_at: None } },
+                1 => { let c = Content { len: 8 * words + rng.range_usize(0, 7), pat: crate::content::Pat::Counter, salt: rng.next() & 0xFFFF }; Payload { leaf: Leaf::Str(c), opt: rng.below(2) as u8, none_at: None } },
+                2 => { let c = Content { len: (1usize << 22) + rng.range_usize(1, 5000), pat: crate::content::Pat::Counter, salt: rng.next() & 0xFFFF }; Payload { leaf: Leaf::VecU64(c), opt: rng.below(2) as u8, none_at: None } },
+                _ => { let c = Content { len: (1usize << 21) + rng.range_usize(1, 3000), pat: crate::content::Pat::Counter, salt: rng.next() & 0xFFFF }; Payload { leaf: Leaf::VecPair(c), opt: rng.below(2) as u8, none_at: None } },
+            }
         } else { gen_large_payload(rng, words) };
         let clause = if payload.opt > 0 && rng.bool() { *rng.pick(&[FaultClause::SkipTrunc, FaultClause::SkipErr]) } else { *rng.pick(&[FaultClause::LoadTrunc, FaultClause::LoadTrunc, FaultClause::LoadErr, FaultClause::SerErr, FaultClause::SerZero]) };
         let chunk = match rng.below(4) { 0 => Chunk::Unbounded, 1 => Chunk::Max(1 << 16), 2 => Chunk::Align(1 << 16), _ => Chunk::Seq(vec![100_000, 4096, 1 << 20, 65_537]) };
@@ -451,12 +484,13 @@ fn sample_points_of(n: usize) -> Vec<usize> {
     around(&mut ks, 0, n);
     around(&mut ks, n.saturating_sub(1), n);
     // Tens of megabytes: one load costs milliseconds, so only the coarse boundaries and a thinner spread.
-    let units: &[usize] = if n > (4 << 20) { &[1 << 20, 1 << 24] } else { &[4096, 1 << 16, 1 << 20] };
+    let units: &[usize] = if n > (24 << 20) { &[1 << 24, 1 << 25] } else if n > (4 << 20) { &[1 << 20, 1 << 24] } else { &[4096, 1 << 16, 1 << 20] };
     for &unit in units {
         let mut c = unit;
         while c < n + unit && ks.len() < 6000 { around(&mut ks, c, n); c += unit; }
     }
-    for j in 0..96usize { ks.push(j * n / 96); }
+    let spread = if n > (24 << 20) { 32usize } else { 96 };
+    for j in 0..spread { ks.push(j * n / spread); }
     ks.retain(|k| *k < n);
     ks.sort_unstable();
     ks.dedup();
@@ -512,6 +546,16 @@ fn answers(bv: &BitVector, mask: u8) -> Vec<u64> {
     if mask & 3 == 3 {
         for &i in pts.iter() { if i < n { out.push(bv.predecessor(i).next().map(|x| x.1 as u64).unwrap_or(u64::MAX)); out.push(bv.successor(i).next().map(|x| x.1 as u64).unwrap_or(u64::MAX)); } }
     }
+    // Iterators need no support structure, so their answers must be the same under every subset:
+    // positioned reads from both ends, with small and large skips.
+    let p2 = |x: Option<(usize, usize)>| x.map(|v| (v.0 as u64) << 32 ^ v.1 as u64).unwrap_or(u64::MAX);
+    for k in [0usize, 1, 63, 64, 65, 200, 5000] {
+        out.push(p2(bv.one_iter().nth(k))); out.push(p2(bv.one_iter().nth_back(k))); out.push(p2(bv.one_iter().rev().nth(k)));
+        out.push(p2(bv.zero_iter().nth(k))); out.push(p2(bv.zero_iter().nth_back(k))); out.push(p2(bv.zero_iter().rev().nth(k)));
+        out.push(bv.iter().nth(k).map(|b| b as u64).unwrap_or(2)); out.push(bv.iter().nth_back(k).map(|b| b as u64).unwrap_or(2));
+    }
+    if mask & 2 != 0 && bv.count_ones() > 0 { for k in [0usize, 64, 300] { let mut it = bv.select_iter(bv.count_ones() / 3); out.push(p2(it.nth_back(k))); out.push(p2(it.next())); } }
+    if mask & 4 != 0 && bv.count_zeros() > 0 { for k in [0usize, 64, 300] { let mut it = bv.select_zero_iter(bv.count_zeros() / 3); out.push(p2(it.nth_back(k))); out.push(p2(it.next())); } }
     out
 }
 
